@@ -208,10 +208,17 @@ def runCalls (τ : List Rat' → Nat) : MW → List WCall → MW
 /-- Go's tick function -/
 def goTicks (vs : List Rat') : Nat := ticksF ticksPerQuarter (vs.map fun r => (r.num, r.den))
 
-/-- `crd write` up to the abstract tracks -/
+/-- `midix.MaxTicks`: the largest delta time a midi file can hold -/
+def maxTicks : Nat := 0x0FFFFFFF
+
+/-- length of the piece in ticks (the writer's `totalTicks`) -/
+def pieceTicks (τ : List Rat' → Nat) (is : List Instance) : Nat := (is.map fun i => τ i.values).sum
+
+/-- `crd write` up to the abstract tracks; after the D22 fix `WriteTo` refuses a piece longer than `maxTicks` -/
 def cmdWriteTracks (f : WriteFlags) (is : List Instance) : Except Err (List Track) := do
   let (d, n, is') ← prepareWrite f is
   let calls ← playWrite d is'
+  if pieceTicks goTicks is' > maxTicks then throw .invalid
   pure (runCalls goTicks (MW.new n f.instrument f.program defaultSequenceName) calls).tracks
 
 end Crd
